@@ -43,7 +43,7 @@ func WriteEvidence(root string, ev *Evidence) error {
 
 // Setup builds the plain and the instrumented plugin into a fresh scratch directory and checks
 // that the rewrite preserves behaviour under the identity schedule.
-func Setup(needSim bool) (*Engine, *simbuild.Instrumented, func(), error) {
+func Setup(needSim bool, deps bool) (*Engine, *simbuild.Instrumented, func(), error) {
 	work, err := os.MkdirTemp("", "verif-gensim-")
 	if err != nil {
 		return nil, nil, nil, err
@@ -57,7 +57,7 @@ func Setup(needSim bool) (*Engine, *simbuild.Instrumented, func(), error) {
 	}
 	var ins *simbuild.Instrumented
 	if needSim {
-		ins, err = simbuild.Build(work)
+		ins, err = simbuild.Build(work, deps)
 		if err != nil {
 			cleanup()
 			return nil, nil, nil, err
@@ -144,7 +144,7 @@ var components = map[string]interface{}{
 // Check runs property id at the given tier.
 func Check(root, id, tier string, seed uint64) (*Result, error) {
 	start := time.Now()
-	e, ins, cleanup, err := Setup(true)
+	e, ins, cleanup, err := Setup(true, tier == "thorough" && id == "C14")
 	if err != nil {
 		return nil, err
 	}
@@ -339,7 +339,7 @@ func Replay(path string) (*Case, []string, error) {
 	}
 	c.Failures, c.Observed = nil, nil
 	needSim := c.Run.Sim != nil || (c.Ref != nil && c.Ref.Sim != nil)
-	e, _, cleanup, err := Setup(needSim)
+	e, _, cleanup, err := Setup(needSim, c.Tier == "thorough" && c.Property == "C14")
 	if err != nil {
 		return nil, nil, err
 	}
@@ -351,7 +351,7 @@ func Replay(path string) (*Case, []string, error) {
 // Determinism executes the same explicit RunSpec n times (GOMAXPROCS 1/4/16) and compares stdout and
 // the event log; it also checks that the case list is a pure function of the seed.
 func Determinism(n int) (map[string]interface{}, bool, error) {
-	e, _, cleanup, err := Setup(true)
+	e, _, cleanup, err := Setup(true, false)
 	if err != nil {
 		return nil, false, err
 	}
